@@ -22,7 +22,7 @@ STUBS = ["clients (1-3 scripted users, interleaved by the PRNG scheduler)",
 ASSUMPTIONS = [
     "a public API call is atomic (EAO is synchronous and single-threaded): interleaving granularity is one call",
     "the fresh twin (same call on objects rebuilt from the pristine spec) is what C10 promises; for timegrid=None the twin first receives a fresh copy of the grid the object was last given (directly or through its portfolio / wrapper)",
-    "calls judged: Asset/Portfolio.setup_optim_problem, setup_split_optim_problem, create_cost_samples, Timegrid.prices_to_grid / values_to_grid; all other calls only make history",
+    "calls judged: Asset/Portfolio.setup_optim_problem, setup_split_optim_problem, create_cost_samples, Timegrid.prices_to_grid / values_to_grid, and the value of the io.optimize shortcut (1e-6 relative); all other calls only make history",
     "when system and twin both raise, the call is not judged further (only that both fail)",
     "after a failed call that named a grid different from the object's previous one, a later timegrid=None call on that object is not judged (which grid the user means is ambiguous)",
     "solvers are deterministic for identical input",
@@ -88,8 +88,8 @@ def portfolio_is_mip(world, pid):
 def gen_world(rng, opts):
     env = specs.Env(rng, max_T=48)
     env.allow_date_only_zone = True
-    env.coarse_p = 0.35
-    env.ramp_p = 0.3
+    env.coarse_p = max(getattr(env, "coarse_p", 0), 0.35)
+    env.ramp_p = max(getattr(env, "ramp_p", 0), 0.3)
     w = env.world
     g0 = specs.gen_grid(env)
     n_g = rng.choice([2, 2, 3])
@@ -703,7 +703,7 @@ class Exec:
         return o.create_cost_samples(lst, g)
 
     # ---- judged step
-    def judged(self, i, st, sys_fn, twin_fn, gid_eff, judge=True):
+    def judged(self, i, st, sys_fn, twin_fn, gid_eff, judge=True, rtol=None):
         self.stats["calls"] += 1
         s = _call(lambda: sys_fn(self.B))
         ev = {"step": i, "op": st["op"], "client": st.get("client")}
@@ -732,7 +732,8 @@ class Exec:
                 v = {"clause": "history-makes-call-succeed", "field": "%s@%s" % (et, fr),
                      "detail": "the call succeeds after this history but raises %s (%s) on fresh objects" % (et, str(t.exc)[:160])}
             else:
-                d = canon.diff_canon(cs, canon.canon_op(t.val))
+                d = canon.diff_canon(cs, canon.canon_op(t.val)) if rtol is None else \
+                    canon.diff_canon(cs, canon.canon_op(t.val), rtol=rtol, atol=rtol)
                 if d:
                     v = {"clause": "twin-mismatch", "field": _field(d), "detail": d}
             if v is not None:
@@ -919,21 +920,29 @@ class Exec:
                     return
                 eao.io.extract_output(self.B.portfolio(st["obj"]), rec["op"], rec["res"])
             elif op == "io.optimize":
+                # the shortcut casts the data, sets the problem up, solves and extracts: its value is a function of the
+                # problem it built, so it is judged like a set-up (same solver on the same problem gives the same value)
                 gid = st["grid"]
-                ok = False
-                try:
-                    eao.io.optimize(self.B.portfolio(st["obj"]), self.B.grid(gid), self.B.prices(st["prices"]),
-                                    split_interval_size=st.get("split"))
-                    ok = True
-                finally:
-                    M.touch(st["obj"], gid, ok, split=bool(st.get("split")))
-                    for d in M.shared_dicts_of(st["obj"]):
-                        M.dict_zone[d] = M.zone(gid)
-                    M.prices_grid[st["prices"]] = gid
-                    if not ok and st.get("split"):
-                        M.failed_split.add(st["obj"])
-                        for a in subtree_assets(self.w, st["obj"]):
-                            M.failed_split.add(a)
+                self.stats["calls"] -= 1
+
+                def run_io(B):
+                    out_ = eao.io.optimize(B.portfolio(st["obj"]), B.grid(gid), B.prices(st["prices"]), split_interval_size=st.get("split"))
+                    sm = out_.get("summary")
+                    if hasattr(sm, "loc"):
+                        return np.array([float(sm.loc["value", "Values"])])
+                    return np.array([float("nan")])
+                self.record_pair(dict(st, op="io.optimize"), gid)
+                s_ = self.judged(i, st, run_io, run_io, gid, rtol=1e-6)
+                ok = s_.exc is None
+                M.touch(st["obj"], gid, ok, split=bool(st.get("split")))
+                for d in M.shared_dicts_of(st["obj"]):
+                    M.dict_zone[d] = M.zone(gid)
+                M.prices_grid[st["prices"]] = gid
+                if not ok and st.get("split"):
+                    M.failed_split.add(st["obj"])
+                    for a in subtree_assets(self.w, st["obj"]):
+                        M.failed_split.add(a)
+                return
             elif op == "slp":
                 rec = self.last.get(st["obj"])
                 if rec is None or rec["op"] is None or rec["grid"] != st["grid"] or not hasattr(rec["op"], "A") or rec["op"].A is None:
